@@ -212,7 +212,9 @@ const T_USE_CANDIDATE: u16 = 0x0025;
 // With `--glue 1` the binary runs the same histories but writes, instead of the history records, one record per sampled
 // packet:  C P <s|c> <realm tokens> <packet hex>   /   I <class> <method> <abstract tokens> | MALFORMED
 // s = a packet the client sent, read by abstract_packet; c = a packet crafted from the abstract tokens (before any framing
-// damage). The Gallina function AbsGlue.abs_packet must read the same bytes the same way.
+// damage). The Gallina function AbsGlue.abs_packet must read the same bytes the same way, and the Gallina rendering
+// Concrete.craft_packet of the abstract packet (s: the abstract reading; c: the intended tokens) with the packet's
+// transaction id must be the very bytes (field B= of the I line).
 static GLUE: std::sync::Mutex<Option<(Vec<String>, u64, u64)>> = std::sync::Mutex::new(None);
 fn glue_record(kind: &str, realms: &[u32], intended: &str, b: &[u8], abs: String) {
     if let Some((v, seen, stride)) = GLUE.lock().unwrap().as_mut() {
@@ -226,14 +228,15 @@ fn glue_record(kind: &str, realms: &[u32], intended: &str, b: &[u8], abs: String
 }
 fn glue_sent(realms: &[u32], b: &[u8]) {
     let abs = match abstract_packet(b, realms) {
-        Some((class, method, attrs)) => format!("{} {} {}", class, method, toks(&attrs)),
+        // B= the real bytes: the Gallina rendering (Concrete.craft_packet) of this abstract reading must be these very bytes
+        Some((class, method, attrs)) => format!("{} {} {} B={}", class, method, toks(&attrs), hex(b)),
         None => "MALFORMED".to_string(),
     };
     glue_record("s", realms, "", b, abs);
 }
 fn glue_crafted(base_realms: &[u32], class: u8, method: u16, attrs: &[A], bytes: &[u8]) {
     glue_record("c", &realms_of(attrs, base_realms), &format!("{} {} {} ", class, method, toks(attrs)), bytes,
-                format!("{} {} {}", class, method, toks(&recoverable(attrs))));
+                format!("{} {} {} B={}", class, method, toks(&recoverable(attrs)), hex(bytes)));
 }
 fn glue_replay(f: &[&str]) {
     let realms: Vec<u32> = if f[3] == "-" { vec![] } else { f[3].split(',').map(|x| x.parse().unwrap()).collect() };
@@ -797,6 +800,11 @@ fn gen_cfg(rng: &mut Rng) -> Cfg {
     if rng.chance(1, 12) {
         // the library defaults (RFC 8489: RTO 500 ms, Rm 16, Rc 7; granularity 1 ms; 10 outstanding requests)
         return Cfg { reliable: false, rto: 500_000_000, rm: 16, rc: 7, gran: 1_000_000, limit: 10, mech: *rng.pick(&[0u8, 0, 1, 4]), fp: rng.chance(1, 3), defaults: true };
+    }
+    if rng.chance(1, 25) {
+        // many retransmissions of a tiny RTO: the doubling multiplier passes 2^31 within seconds (Rc >= 32 overflowed a u32, D9)
+        return Cfg { reliable: false, rto: *rng.pick(&[1u64, 2, 3, 1000]), rm: *rng.pick(&[16u32, 1, 3]), rc: *rng.pick(&[31u32, 32, 33, 34, 40, 64]),
+                     gran: *rng.pick(&[1u64, 0, 1_000_000]), limit: *rng.pick(&[1usize, 2, 10]), mech: *rng.pick(&[0u8, 0, 1, 4]), fp: rng.chance(1, 3), defaults: false };
     }
     let reliable = rng.chance(1, 4);
     let rto = *rng.pick(&[1_000_000u64, 20_000_000, 500_000_000, 500_000_000, 3_000_000_000, 7_300_001]);
